@@ -14,7 +14,12 @@ from ..model import src_of
 
 
 def _calls_attr(f, attr):
-    return [n for n in f.own_nodes() if isinstance(n, ast.Call) and isinstance(n.func, ast.Attribute) and n.func.attr == attr]
+    """Calls of the registry slot `attr`: `format_module.<attr>(...)`, also through a local bound to the slot."""
+    out = [n for n in f.own_nodes() if isinstance(n, ast.Call) and isinstance(n.func, ast.Attribute) and n.func.attr == attr]
+    for cs in f.calls:
+        if getattr(cs, "registry_op", None) == attr and cs.node not in out:
+            out.append(cs.node)
+    return out
 
 
 def _prepare_sites(prog, f, depth=0):
